@@ -144,3 +144,81 @@ def run_C01(ctx):
         "invalid UTF-8 is compared byte for byte (go-sse does not decode; no property asks for U+FFFD)",
         "which error ends a stream cut by a read error, and Connect returning nil, are decided by C11, not here",
     ])
+
+
+# ---------------------------------------------------------------------------------------------- C20
+def scan_streams(limit, deep):
+    sizes = sorted({s for s in (16, 4095, 4096, 4097, 8192) if s < limit} | {limit - 1, limit + 1, 2 * limit + 5})
+    sizes = [s for s in sizes if s >= 12]
+    first = [(b, s - b) for s in sizes for b in (0, 1, 5) if s - b >= 8]
+    second = [(b, s - b) for s in (16, limit - 1, limit + 1) for b in (0, 5) if s - b >= 8 and s >= 12]
+    tails = [("none", 0), ("blank", 3), ("line", 20), ("event", 20), ("line", limit + 10), ("blank", limit + 10), ("event", limit + 40)]
+    seqs = [[]] + [[u] for u in first] + [[u, v] for u in first for v in second]
+    if deep:
+        seqs += [[u, v, w] for u in first[::2] for v in second for w in second]
+    out = []
+    for sq in seqs:
+        for k, n in tails:
+            out.append(dict(units=[dict(b=b, e=e) for b, e in sq], tail=dict(kind=k, n=n)))
+    return out
+
+
+def run_C20(ctx):
+    agg = dict(evaluations=0, distinct=0, behaviours=0, samples=[], n_violations=0, notes={})
+    q = ctx.quick
+    cfgs = [dict(entry="read", initcap=0, max=0), dict(entry="read", initcap=0, max=100), dict(entry="read", initcap=0, max=5000),
+            dict(entry="conn", initcap=8192, max=1000), dict(entry="conn", initcap=100, max=10000), dict(entry="conn", initcap=0, max=0),
+            dict(entry="conn", initcap=300, max=0)]
+    if not q:
+        cfgs += [dict(entry="read", initcap=0, max=4096), dict(entry="read", initcap=0, max=70000), dict(entry="conn", initcap=0, max=9000)]
+    for i, c in enumerate(cfgs):
+        limit = max(c["initcap"], c["max"] if (c["max"] > 0 or c["initcap"] > 0) else 65536)
+        streams = scan_streams(limit, not q)
+        consts = dict(Cfgs=Raw("{" + core.tla_value(c) + "}"),
+                      Streams=Raw("{" + ", ".join(core.tla_value(s) for s in streams) + "}"),
+                      Policies=Raw("{0, 1000}" if q else "{0, 1000, 4096, 333}"))
+        name = "Scanner%d" % i
+        d = core.write_mc(ctx, name, "Scanner", consts, invariants=["Bounded", "ReadAhead", "TooLongOnlyIfOversized", "Complete", "Export"],
+                          properties=["Variant"], deadlock=True)
+        r = core.run_tlc(ctx, d, name, timeout=3000)
+        res = drive_stream_generic(ctx, "scan", r.stdout_path, name, agg)
+    cov = {
+        "states": ctx.states, "transitions": ctx.transitions,
+        "traces_validated_against_impl": agg["behaviours"],
+        "samples": agg["samples"][:4],
+        "evaluations": agg["evaluations"], "distinct_nontrivial": agg["distinct"],
+        "rule": "streams of <= %d units (blank run of 0/1/5 bytes + event) with sizes around 4 KiB, 8 KiB and the limit (limit-1, limit+1, 2*limit+5), "
+                "ending in nothing / blank lines / an unterminated line / a pending event / an endless line / endless blank lines / an oversized pending event, "
+                "x %d limit settings through ReadConfig.MaxEventSize and Connection.Buffer x read policies; each replayed over a counting reader under 3-4 "
+                "chunkings x EOF with/without data; non-trivial = behaviours ending in ErrTooLong or with more than one unit" % (2 if q else 3, len(cfgs)),
+        "exhaustive": True, "real_code_disagreements": agg["n_violations"], "notes": agg["notes"],
+    }
+    core.write_evidence(ctx, "model_checking", cov, [
+        "bufio.Scanner is modelled only as far as go-sse relies on it (buffer growth 4096*2^k capped at the limit, compaction, ErrTooLong when full)",
+        "a unit of exactly the limit may go either way (only boundedness and intactness are demanded for it)",
+        "memory is observed as bytes pulled from the reader beyond the end of the last delivered event",
+    ])
+
+
+def drive_stream_generic(ctx, cmd, tlc_out, tag, agg):
+    beh = os.path.join(ctx.work, "beh-%s.ndjson" % tag)
+    n = core.extract_exports(tlc_out, beh, dedupe=True)
+    if n == 0:
+        raise core.ToolFailure("TLC exported no behaviours (%s)" % tag)
+    resp = os.path.join(ctx.work, "res-%s.json" % tag)
+    core.run_driver(ctx, [cmd, "-in", beh, "-out", resp], timeout=3000)
+    res = core.read_json(resp)
+    os.remove(beh)
+    for v in res["violations"]:
+        core.report(ctx, v["what"], v["detail"], v["signature"])
+    core.log("%s/%s: %d behaviours, %d evaluations, signatures %s notes %s" % (ctx.pid, tag, res["behaviours"], res["evaluations"],
+                                                                             res["notes"].get("violation_signatures"), {k: v for k, v in res["notes"].items() if k != "violation_signatures"}))
+    agg["evaluations"] += res["evaluations"]
+    agg["distinct"] += res["distinct_nontrivial"]
+    agg["behaviours"] += res["behaviours"]
+    agg["samples"] += res["samples"][:1]
+    agg["n_violations"] += res["n_violations"]
+    for k, v in res["notes"].items():
+        if isinstance(v, int):
+            agg["notes"][k] = agg["notes"].get(k, 0) + v
+    return res
